@@ -14,6 +14,8 @@ def run(m, tier):
     results.append(two_roundtrip.optional_blank_rule(m, "C04.R11"))
     from rules import reader_interp
     results.append(reader_interp.free_rule(m, "C04.R12", tier))
+    from rules import prog_rules
+    results.append(prog_rules.layout_rule(m, "C04.R13", tier, "free"))
     expl = ("Decides structural necessary conditions of layout independence: the quote state returned by handle_inline_comment is "
             "threaded through every continuation loop and a comment ends character context (path-sensitive over the function); ';' is "
             "split on the tokenised line only, each part has the replace map undone and label then construct name re-extracted; "
